@@ -289,15 +289,16 @@ func (m *model) instantiate(spec *ModSpec) instResult {
 		}
 		for k, r := range refs {
 			p := captureProbe{Table: e.Table, Slot: off + uint32(k), Want: r, PrevRef: t.slots[off+uint32(k)]}
-			if og != nil && k == 0 {
+			switch {
+			case r.fn == nil && p.PrevRef.fn != nil && t.decl.Elem == wenc.FuncRef:
+				p.Site = "elem-null-item" // a ref.null item overwrites what was in the slot
+				res.Probes = append(res.Probes, p)
+			case og != nil && k == 0:
 				p.Site, p.Mutable = "elem-offset", og.typ.Mutable
 				p.StaleSlot, p.StaleValid = uint32(og.initLo), true
 				res.Probes = append(res.Probes, p)
-			} else if srcs[k] != nil {
+			case srcs[k] != nil:
 				p.Site, p.Mutable = "elem-init", srcs[k].typ.Mutable
-				res.Probes = append(res.Probes, p)
-			} else if r.fn == nil && p.PrevRef.fn != nil && t.decl.Elem == wenc.FuncRef {
-				p.Site = "elem-null-item" // a ref.null item overwrites what was in the slot
 				res.Probes = append(res.Probes, p)
 			}
 		}
